@@ -34,6 +34,7 @@ const PROOF: &[&str] = &[
     "older-retained-no-bypass",
     "older-retained-bypass-operator",
     "bypass-without-operator",
+    "older-retained-bypass-without-operator",
     "unknown-set",
     "proof-for-other-candidate",
     "expired-set-bypass",
@@ -120,7 +121,7 @@ fn gen_candidate(rng: &mut Rng, ring: &mut KeyRing, m: &GwModel, class: &str) ->
 
 fn own(reason: &str, prop: &str) -> bool {
     match reason {
-        "operator-auth" => prop == "C06" || prop == "C09",
+        "operator-auth" => prop == "C06" || prop == "C09" || prop == "C03",
         "delay" => prop == "C09",
         "retention" => prop == "C08" || prop == "C01",
         "not-latest" => prop == "C03" || prop == "C08",
@@ -369,7 +370,7 @@ pub fn run(ctx: &Ctx, rep: &mut Report) {
         let owner = u.principal();
         let operator = u.principal();
         let stranger = u.principal();
-        let retention = *rng.pick(&[0u64, 1, 3]);
+        let retention = *rng.pick(&[0u64, 1, 3, u64::MAX]);
         let n_init = 1 + rng.usize(3);
         let initial: Vec<MSigners> = (0..n_init).map(|_| gen_wellformed_set(&mut rng, &mut ring, 5)).collect();
         let mut g = Gw::deploy(&mut u, &owner, &operator, rng.bytes32(), 0, retention, &initial);
@@ -418,6 +419,14 @@ pub fn run(ctx: &Ctx, rep: &mut Report) {
                     }
                     let s = rng.pick(&live_old).clone();
                     (plan_honest(&ring, &m.domain, &s, &dh, &all_slots(&s)), true, Auth::Only(vec![operator.clone()]), true)
+                }
+                "older-retained-bypass-without-operator" => {
+                    if live_old.is_empty() {
+                        continue;
+                    }
+                    let s = rng.pick(&live_old).clone();
+                    let a = match rng.below(3) { 0 => Auth::Nobody, 1 => Auth::AllBy(stranger.clone()), _ => Auth::AllBy(owner.clone()) };
+                    (plan_honest(&ring, &m.domain, &s, &dh, &all_slots(&s)), true, a, false)
                 }
                 "bypass-without-operator" => {
                     let a = match rng.below(3) { 0 => Auth::Nobody, 1 => Auth::AllBy(stranger.clone()), _ => Auth::AllBy(owner.clone()) };
@@ -468,5 +477,5 @@ pub fn run(ctx: &Ctx, rep: &mut Report) {
     req.push("construct-malformed-inside".into());
     req.push("construct-three".into());
     rep.notes.insert("required".into(), json!(req));
-    rep.notes.insert("rule".into(), json!("3 of 4 universes: gateway (delay 0, retention in {0,1,3}, 1-3 initial sets) and 28 rotation attempts = candidate class (12: fresh, total exactly u128::MAX, earlier set with other nonce, empty, adjacent equal keys, descending pair, zero weight, total overflowing u128, threshold 0 / total+1, earlier set verbatim, all-zero first key) x proof class (8: newest, older retained with/without bypass, bypass without operator, unknown set, proof for another candidate, expired set with bypass, one signer short); after every attempt epoch(), signers_hash_by_epoch(0..=epoch+1) and epoch_by_signers_hash(every hash ever seen, including rejected candidates) are compared with the model. 1 of 4 universes: 6 constructor attempts through a factory (0/1/3 sets, duplicate or malformed member inside, same set with other nonce). distinct = (candidate class, proof class, expectation, outcome, epoch)"));
+    rep.notes.insert("rule".into(), json!("3 of 4 universes: gateway (delay 0, retention in {0,1,3}, 1-3 initial sets) and 28 rotation attempts = candidate class (12: fresh, total exactly u128::MAX, earlier set with other nonce, empty, adjacent equal keys, descending pair, zero weight, total overflowing u128, threshold 0 / total+1, earlier set verbatim, all-zero first key) x proof class (9: newest, older retained with/without bypass, bypass without operator by the newest or an older retained set, unknown set, proof for another candidate, expired set with bypass, one signer short); after every attempt epoch(), signers_hash_by_epoch(0..=epoch+1) and epoch_by_signers_hash(every hash ever seen, including rejected candidates) are compared with the model. 1 of 4 universes: 6 constructor attempts through a factory (0/1/3 sets, duplicate or malformed member inside, same set with other nonce). distinct = (candidate class, proof class, expectation, outcome, epoch)"));
 }
